@@ -39,6 +39,12 @@ CLOSURES = [
     ("k = 3\nF = x => {k}", ["k", "x"], ["(1)"]),
     ("k = 1\ng2 = () => k\nF = () => [g2(), k]", ["k", "g2"], ["()"]),
     ("k = 4\nF = x => (y => (z => x + y + z + k))(1)(2)", ["k", "x", "y", "z"], ["(3)"]),
+    # an inner lambda's parameter has the name of a captured outer variable that is used AFTER it
+    ("k = 10\nF = xs => [map(xs, k => k * 2), k]", ["k", "xs"], ["([1])"]),
+    ("k = 10\nF = xs => [xs via (k => k + 1), k, (k => k)(3), k]", ["k", "xs"], ["([1, 2])"]),
+    ("k = 10\nmk = k => xs => [xs where (k => k > 0), k]\nF = mk(5)", ["k", "xs", "mk"], ["([1])"]),
+    ("k = 10\nF = () => do {\n  g9 = k => k\n  return [g9(1), k]\n}", ["k", "g9"], ["()"]),
+    ("a1 = 1\nb1 = 2\nF = () => [reduce([1], (a1, b1) => a1 + b1, 0), a1, b1]", ["a1", "b1"], ["()"]),
 ]
 
 
@@ -138,6 +144,40 @@ def main(argv):
                 progs.append(defs + "\n" + ctx)
                 meta.append((defs, call, cname, ref))
             # after a failed redefinition attempt of a captured name (sessions continue)
+    # generated closures: random top-level bindings, then a random function over them; every name in
+    # scope and every parameter name the generator uses is shadowed in the contexts
+    from gen_programs import Gen, Scope
+    rngc = c.Rng(seed + 4)
+    gg = Gen(rngc, allow_fail=False, max_depth=2)
+    n_gen = 25 if tier == "quick" else 1500
+    for _ in range(n_gen):
+        sc = Scope()
+        sc.vars["inputs"] = "rec"
+        dl = []
+        for _k in range(2 + rngc.below(4)):
+            kind = rngc.below(4)
+            nm = gg.fresh(sc)
+            if kind == 0:
+                dl.append("%s = %s" % (nm, gg.num(sc, 1))); sc.vars[nm] = "num"
+            elif kind == 1:
+                dl.append("%s = %s" % (nm, gg.numlist(sc, 1))); sc.vars[nm] = "numlist"
+            elif kind == 2:
+                dl.append("%s = %s" % (nm, gg.fn1(sc, 1))); sc.vars[nm] = "fn1"
+            else:
+                dl.append("%s = %s" % (nm, gg.string(sc, 1))); sc.vars[nm] = "str"
+        if any("=" in ln.split("=", 1)[1].replace("=>", "").replace("==", "").replace("<=", "").replace(">=", "").replace("!=", "")
+               for ln in dl):
+            continue        # no inner assignments (F32 class)
+        fexp = gg.fn1(sc, 2)
+        if fexp in sc.vars or fexp in ("abs", "floor", "ceil", "trunc", "sqrt"):
+            continue
+        defs = "\n".join(dl) + "\nF = " + fexp
+        names = [n_ for n_ in sc.vars if n_ != "inputs"] + ["x", "e", "item", "n", "i"]
+        call = "F(%s)" % rngc.choice(["1", "2.5", "0"])
+        ref = defs + "\n" + call
+        for cname, ctx in contexts(call, names[:6]):
+            progs.append(defs + "\n" + ctx)
+            meta.append((defs, call, cname, ref))
     rust = es.rust_eval(h, progs)
     ref_results = {}
     for (defs, call, cname, ref), r in zip(meta, rust):
